@@ -99,7 +99,7 @@ def check_extrema(emd, x, mode, pad, par, lpo, mpo, rec):
     return 1
 
 
-def check_envelope(emd, x, which, method, pad, par, lpo, mpo, rec):
+def check_envelope(emd, x, which, method, pad, par, lpo, mpo, rec, sequence=False):
     xt, x = x, np.asarray(x, dtype=float)
     N = x.size
     tag = '%s/%s/%s' % (which, method, 'parabolic' if par else 'plain')
@@ -134,6 +134,27 @@ def check_envelope(emd, x, which, method, pad, par, lpo, mpo, rec):
     if out is None:
         raise Violation('C05/interp_envelope/None-with->=2-extrema/' + tag, 'on %r' % (x.tolist()[:20],))
     env, (locs, mags) = out
+    if sequence:
+        # the caller keeps this envelope and asks for further ones of equally long signals (another signal, then the same
+        # signal again after scribbling on the envelope it holds): what it holds must stay what it was given, and the
+        # repeated request must give the same envelope again
+        held = env
+        keep = np.array(env, dtype=float)
+        other = np.asarray(x)[::-1] * -0.5 + 1.0
+        try:
+            emd.sift.interp_envelope(other.copy(), mode=which, interp_method=method, extrema_opts=dict(eo0))
+            if not np.array_equal(np.asarray(held, dtype=float), keep):
+                raise Violation('C05/interp_envelope/returned-envelope-changed-by-a-later-call/' + which, '')
+            if isinstance(held, np.ndarray) and held.flags.writeable:
+                held *= 3.0
+            again = emd.sift.interp_envelope(_arg(xt), mode=which, interp_method=method, extrema_opts=dict(eo0))
+        except Violation:
+            raise
+        except Exception as e:
+            raise Violation('C05/interp_envelope/later-call-raises/' + type(e).__name__, repr(e))
+        if again is None or not np.array_equal(np.asarray(again, dtype=float), keep):
+            raise Violation('C05/interp_envelope/repeated-call-differs-after-caller-edited-the-earlier-result/' + which, '')
+        env = keep
     env = np.asarray(env, dtype=float)
     if env.shape != (N,):
         raise Violation('C05/interp_envelope/length/' + tag, 'got %r for N=%d' % (env.shape, N))
@@ -215,7 +236,8 @@ def oracle_random(case, rec):
     x = gens.relayout(x, case.get('layout', 'C'))     # the routines receive x.copy() - see below - or the view itself
     rec.cls('layout=' + case.get('layout', 'C'))
     nt = max(check_extrema(emd, x, case['mode'], case['pad'], case['par'], case['lpo'], case['mpo'], rec), 0)
-    nt += check_envelope(emd, x, case['which'], case['method'], max(case['pad'], 1), case['par'], case['lpo'], case['mpo'], rec)
+    nt += check_envelope(emd, x, case['which'], case['method'], max(case['pad'], 1), case['par'], case['lpo'], case['mpo'], rec,
+                         sequence=True)
     if case['pad'] == 0:
         check_envelope(emd, x, case['which'], case['method'], 0, case['par'], case['lpo'], case['mpo'], rec)
     rec.cls('family=' + case['sig'].get('family', 'elementwise'))
